@@ -213,7 +213,7 @@ impl Scenario for C10S {
             let elapsed = e.vns - inv_vns;
             let d_ms_ns = (d_us as u64 / 1000) * 1_000_000;
             judged += 1;
-            if any_alive_certainly_at(e.seq) {
+            if kind != 0 && any_alive_certainly_at(e.seq) {
                 judged_alive += 1;
             }
             let pending_before_inv: Vec<&Snd> = sends.iter().filter(|s| s.ok && s.ret.map(|r| r.0 < inv).unwrap_or(false) && !delivered.contains(&(s.s, s.q))).collect();
@@ -313,7 +313,7 @@ impl Scenario for C10S {
         }
         out.nontrivial = judged_alive > 0;
         out.probe("calls_judged", judged);
-        out.probe("calls_judged_with_live_sender", judged_alive);
+        out.probe("timed_or_nonblocking_calls_judged_with_live_sender", judged_alive);
         out.probe("timeouts_expired", evs.iter().filter(|e| e.op == "call.empty").count() as u64);
         out.probe("messages", delivered.len() as u64);
         out.sample = json!({"senders": nsend, "calls": judged, "delivered": delivered.len(), "virtual_ms": (sim::now_ns() - 1_000_000_000_000) / 1_000_000});
